@@ -566,7 +566,7 @@ theorem step_inv {st : State} (inv : Inv sz st) (c : Call) (hpre : pre st c = tr
     simp only [step, hget, hb]
     cases id with
     | none =>
-      have := inv.acquire sz st.heap (.hlist []) rfl (by simp [owns, ownsNodes]) trivial
+      have := inv.acquire sz st.heap .alias rfl (by simp [owns]) trivial
       simpa using this
     | some id =>
       have hm : (id, sz .action, Kind.action) ∈ st.heap.liveList := inv.mem_live sz hs hr (by rw [hb]; simp [owns])
